@@ -100,6 +100,37 @@ IDENT_TEMPLATES = {
     "field": "struct S { @: int }\nfn u(s: S) -> int { return s.@ }\nshadow u { assert true }\n",
     "twice": "fn @(a: int) -> int { return a }\nfn @(a: int) -> int { return a }\n",
 }
+IDENT_TEMPLATES_LONG = {
+    "qualified-call": "fn q() -> int {\n    (@.@ 1)\n    return 0\n}\nshadow q { assert true }\n",
+    "qualified-call-known-left": "struct QS { x: int }\nfn q2(s: QS) -> int {\n    (s.@ 1)\n    return 0\n}\nshadow q2 { assert true }\n",
+    "field-access": "struct FS { x: int }\nfn q3(s: FS) -> int {\n    return s.@\n}\nshadow q3 { assert true }\n",
+    "variant": "enum VE { A, B }\nfn q4() -> int {\n    let e: VE = VE.@\n    return 0\n}\nshadow q4 { assert true }\n",
+    "union-construct": "union VU { L { v: int } }\nfn q5() -> int {\n    let u: VU = VU.@ { v: 1 }\n    return 0\n}\nshadow q5 { assert true }\n",
+    "struct-literal-field": "struct LS { x: int }\nfn q6() -> int {\n    let s: LS = LS { @: 1 }\n    return s.x\n}\nshadow q6 { assert true }\n",
+    "match-binding": "union MU { L { v: int } }\nfn q7(u: MU) -> int {\n    match u {\n        L(@) => { return @.v }\n    }\n}\nshadow q7 { assert true }\n",
+    "match-variant": "union MV { L { v: int } }\nfn q8(u: MV) -> int {\n    match u {\n        @(b) => { return 1 }\n    }\n}\nshadow q8 { assert true }\n",
+    "import-alias": 'import "nonexistent_module_zz.nano" as @\n',
+    "import-path": 'import "@.nano" as M\n',
+    "from-import": 'from "nonexistent_module_zz.nano" import @\n',
+    "for-var": "fn q9() -> int {\n    for @ in (range 0 2) { (println @) }\n    return 0\n}\nshadow q9 { assert true }\n",
+    "set-target": "fn q10() -> int {\n    set @ 1\n    return 0\n}\nshadow q10 { assert true }\n",
+    "generic-arg": "fn q11() -> int {\n    let l: List<@> = (List_@_new)\n    return 0\n}\nshadow q11 { assert true }\n",
+    "string-literal": 'fn q12() -> int {\n    (println "@")\n    return 0\n}\nshadow q12 { assert true }\n',
+    "nested-fn": "fn q13() -> int {\n    fn @(a: int) -> int { return a }\n    return (@ 1)\n}\nshadow q13 { assert true }\n",
+}
+IDENT_LENGTHS = (31, 32, 33, 63, 64, 65, 127, 128, 129, 200, 255, 256, 257, 400, 511, 512, 513, 1023, 1024, 1025, 2047, 2048, 2049, 4095, 4096, 4097, 8192, 70000)
+LONG_PREFIX = {
+    "unsafe-block": "    unsafe { (println 1) }\n",
+    "bare-if": "    if true { (println 1) } else {}\n",
+    "call": "    (println (+ 1 (+ 2 3)))\n",
+    "let-array": "    let a: array<int> = [1, [2][0], 3]\n",
+    "while": "    while false { (println 1) }\n",
+    "struct-literal": "    (println (PS { x: 1 }).x)\n",
+    "cond": "    (println (cond ((== 1 1) 1) (else 2)))\n",
+    "unary": "    (println (not (not true)))\n",
+    "infix": "    (println (1 + 2 * 3))\n",
+}
+LONG_PREFIX_NESTS = ("parens", "calls", "blocks", "unsafe", "infix", "types", "while", "structlit")
 _RESERVED = []
 
 
@@ -166,9 +197,23 @@ def gen_cases(tier):
     for tname, tmpl in IDENT_TEMPLATES.items():
         for nm in reserved_names():
             yield "ident:%s:%s" % (tname, nm), (tmpl.replace("@", nm) + IDENT_MAIN).encode()
+    # identifiers have no length limit: every identifier position x lengths around the usual fixed-buffer sizes
+    for tname, tmpl in list(IDENT_TEMPLATES.items()) + list(IDENT_TEMPLATES_LONG.items()):
+        for ln in IDENT_LENGTHS:
+            nm = ("n" + "abcdefghij" * (ln // 10 + 1))[:ln]
+            yield "identlen:%s:%d" % (tname, ln), (tmpl.replace("@", nm) + IDENT_MAIN).encode()
     for depth in (10, 31, 32, 33, 34, 100, 200, 500, 999, 1000, 1001, 2000, 50000, 200000):
         for fam, text in nesting(depth):
             yield "nest:%s:%d" % (fam, depth), text.encode()
+    # parser state must not accumulate across a long file: N complete constructs first, then a nest at the limit and far
+    # beyond it (a counter that drifts by one per construct moves or disables the depth guard)
+    for cname, ctext in LONG_PREFIX.items():
+        for reps in (2000, 8000):
+            pre = "fn pre() -> int {\n" + ctext * reps + "    return 0\n}\nshadow pre { assert true }\n"
+            for depth in (999, 1001, 50000):
+                for fam, text in nesting(depth):
+                    if fam in LONG_PREFIX_NESTS:
+                        yield "prefix:%s:%d:%s:%d" % (cname, reps, fam, depth), (pre + text).encode()
     if tier == "thorough":
         # all pairs of deviations within a 6-token window, on the three extra seeds (small alphabet)
         A2 = ["(", ")", "{", "}", "else", "fn", "x", "=", ",", "let"]
@@ -217,17 +262,19 @@ def run(tier):
     # write record files of ~4000 cases
     labels = []
     files = []
-    cur, cur_n, fam_counts = None, 0, {}
+    cur, cur_n, cur_bytes, fam_counts = None, 0, 0, {}
     for label, data in gen_cases(tier):
-        if cur is None or cur_n >= 4000:
+        if cur is None or cur_n >= 4000 or cur_bytes > 1500000:      # balanced by size too: the long inputs come in runs
             if cur:
                 cur.close()
             path = os.path.join(work, "rec%04d.bin" % len(files))
             cur = open(path, "wb")
             files.append([path, 0, len(labels)])
             cur_n = 0
+            cur_bytes = 0
         cur.write(struct.pack("<I", len(data)) + data)
         cur_n += 1
+        cur_bytes += len(data)
         files[-1][1] = cur_n
         labels.append(label)
         fam = label.split(":")[0]
@@ -320,6 +367,14 @@ def run(tier):
                 open(p, "wb").write(data[pos + 4:pos + 4 + ln])
                 rc, o, e = common.run([tree.exe("nano_virt"), p, "--emit-nvm", "-o", os.path.join(tdir, "t.nvm")], timeout=30, cwd=tdir, envx=SAN_ENV)
                 tool += 1
+                if rc not in (0, 1) and b"stack-overflow" in e:
+                    # the sanitizer's frames are several times larger: the uninstrumented tool is the arbiter for depth
+                    rc2, o2, e2 = common.run([plain.exe("nano_virt"), p, "--emit-nvm", "-o", os.path.join(tdir, "t.nvm")], timeout=60, cwd=tdir)
+                    if rc2 == 0 or (rc2 == 1 and e2):
+                        rep.count("asan_only_stack_overflows_not_judged")
+                        pos += 4 + ln
+                        continue
+                    rc, e = rc2, e2
                 if rc not in (0, 1) or (rc == 1 and not e):
                     lab = labels[f[2] + k]
                     if not any(lab.split(":")[0] == g[1] for g in groups):
